@@ -276,18 +276,22 @@ func (s *Sorts) Prelude(body string) string {
 	if strings.Contains(body, "strcat") {
 		b.WriteString(strcatAxioms)
 	}
+	// axioms first (as text), so that every function an emitted axiom mentions gets declared
+	var ax strings.Builder
+	for _, a := range s.axioms {
+		if a.trigger == "" || strings.Contains(body, a.trigger) {
+			ax.WriteString(a.cmd)
+			ax.WriteByte('\n')
+		}
+	}
+	scan := body + ax.String()
 	for _, n := range s.ufOrder {
-		if strings.Contains(body, n) {
+		if strings.Contains(scan, n) {
 			b.WriteString(s.ufuns[n])
 			b.WriteByte('\n')
 		}
 	}
-	for _, a := range s.axioms {
-		if a.trigger == "" || strings.Contains(body, a.trigger) {
-			b.WriteString(a.cmd)
-			b.WriteByte('\n')
-		}
-	}
+	b.WriteString(ax.String())
 	return b.String()
 }
 
